@@ -100,9 +100,33 @@ fn validate_json_problem<T: FloatT>(
     P.check_format().map_err(|e| format!("P: {}", e))?;
     A.check_format().map_err(|e| format!("A: {}", e))?;
 
+    // the constructor panics on an indirect KKT solver request
+    if !settings.direct_kkt_solver {
+        return Err("only direct KKT solvers are supported".to_string());
+    }
+
     let (m, n) = (b.len(), q.len());
-    let p = cones.iter().fold(0, |acc, cone| acc + cone.nvars());
-    if !(P.is_square() && P.ncols() == n && A.ncols() == n && A.nrows() == m && p == m) {
+
+    // a cone whose declared size parameter already exceeds the number of
+    // rows cannot fit; rejecting it here also keeps the size arithmetic
+    // below (triangular numbers, sums) free of overflow
+    let fits = cones.iter().all(|cone| match cone {
+        SupportedConeT::ZeroConeT(dim)
+        | SupportedConeT::NonnegativeConeT(dim)
+        | SupportedConeT::SecondOrderConeT(dim) => *dim <= m,
+        SupportedConeT::GenPowerConeT(α, dim2) => *dim2 <= m && α.len() <= m,
+        #[cfg(feature = "sdp")]
+        SupportedConeT::PSDTriangleConeT(dim) => *dim <= m,
+        _ => true,
+    });
+    if !fits {
+        return Err("problem dimensions are inconsistent".to_string());
+    }
+
+    let p = cones
+        .iter()
+        .try_fold(0usize, |acc, cone| acc.checked_add(cone.nvars()));
+    if !(P.is_square() && P.ncols() == n && A.ncols() == n && A.nrows() == m && p == Some(m)) {
         return Err("problem dimensions are inconsistent".to_string());
     }
     Ok(())
